@@ -368,6 +368,9 @@ class Facts:
         if not os.path.exists(p):
             raise AnchorMissing("fact file missing: " + p)
         self.j = json.load(open(p))
+        self.fn_renamed = {}
+        if which == "lib" and os.environ.get("PFA_NO_VARNAMES") != "1":
+            self._canonical_function_names(p)
         self.which = which
         self.bodies = {k: Body(k, v) for k, v in self.j["bodies"].items()}
         self.const_bodies = {k: Body(k, v) for k, v in self.j.get("const_bodies", {}).items()}
@@ -382,6 +385,39 @@ class Facts:
         self.renamed = {}
         if which == "lib" and os.environ.get("PFA_NO_VARNAMES") != "1":
             self._canonical_variable_names()
+
+    # ---- neither are the names of private functions ----------------------------------------------------
+    def _canonical_function_names(self, path):
+        """Rules find their anchors by definition path.  A free function or inherent method that was merely renamed (same
+        parent path, same signature, and the reference name no longer exists) is given its reference name back: the
+        definition path is substituted textually in the fact file before it is interpreted, so callees, instances and
+        closures follow.  Only unambiguous cases are touched; everything else stays an honest ANCHOR-MISSING."""
+        rp = os.path.join(os.path.dirname(os.path.dirname(os.path.abspath(__file__))), "reference", "fnnames.json")
+        if not os.path.exists(rp):
+            return
+        ref = json.load(open(rp))
+        cur = {k: v for k, v in self.j["bodies"].items() if v.get("kind") in ("fn", "assocfn") and "{" not in k}
+        gone = [k for k in ref if k not in cur]
+        new = [k for k in cur if k not in ref]
+        if not gone or not new:
+            return
+        pairs = {}
+        for g in gone:
+            parent = g.rsplit("::", 1)[0]
+            if g.startswith("<") or parent.startswith("<"):
+                continue
+            cands = [n for n in new if n.rsplit("::", 1)[0] == parent and cur[n].get("sig") == ref[g]["sig"] and cur[n].get("argc") == ref[g]["argc"]]
+            back = [g2 for g2 in gone if g2.rsplit("::", 1)[0] == parent and ref[g2]["sig"] == ref[g]["sig"] and ref[g2]["argc"] == ref[g]["argc"]]
+            if len(cands) == 1 and len(back) == 1:
+                pairs[cands[0]] = g
+        if not pairs:
+            return
+        raw = open(path).read()
+        for c, g in pairs.items():
+            raw = re.sub(re.escape(c) + r"(?![A-Za-z0-9_])", g.replace("\\", "\\\\"), raw)
+            cs, gs = c.replace("preflate_rs::", "", 1), g.replace("preflate_rs::", "", 1)
+            self.fn_renamed[c] = g
+        self.j = json.loads(raw)
 
     # ---- user variable names are not semantics ----------------------------------------------------
     def _canonical_variable_names(self):
